@@ -20,6 +20,7 @@ END_STATES = ('free', 'ground', 'other+', 'other-', 'self+', 'self-')
 N_SELF = 2          # position of the object under analysis
 N_OTHER = 0         # position of an earlier object
 PIDX = 100          # parent.pulses.pulse_idx at entry
+USER_TAG = 77       # explicit tag of the object under analysis (differs from every position + 1)
 
 
 class Undecidable(Exception):
@@ -54,6 +55,8 @@ def make_env(s0, s1, nseg):
         'self.conn[0].list[0][0] is not self': not s0.startswith('self'),
         'self.conn[1].list[0][0] is not self': not s1.startswith('self'),
         'parent.pulses.pulse_idx': PIDX,
+        # a tag is chosen by the user: unrelated to the position of the object (Geobj.idx: "must NOT use the tag")
+        'self.tag': USER_TAG,
         '_state': (s0, s1, nseg),
     }
 
